@@ -14,3 +14,8 @@ Definition isinst_item (it : item) (cls : kind) : bool := match it with Obj k _ 
 Definition flat_of (it : item) : list item := match it with Grp l => flat l | Obj _ _ => [it] end.         (* flatten(x) of a list x *)
 Definition nest_of (it : item) : nat := nest_i it.                                                          (* nest_level(x) *)
 Definition as_list (it : item) : list item := match it with Grp l => l | Obj _ _ => [] end.                (* the list x itself *)
+
+(* `not lst` on an item: an empty python list is falsy (objects of the five classes define neither __bool__ nor __len__) *)
+Global Instance truthy_item : Truthy item := fun it => match it with Grp [] => false | _ => true end.
+(* max(<values>): ValueError on an empty sequence *)
+Definition max_of (l : list Z) : MI Z := match l with [] => raise EValue | x :: r => ret (fold_left Z.max r x) end.
